@@ -152,6 +152,11 @@ impl AnyTarget {
     pub fn exact_params(&self) -> bool {
         !matches!(self, AnyTarget::Gauss2 { .. } | AnyTarget::Student { .. })
     }
+    /// targets on which every leapfrog trajectory turns around after a bounded number of steps at an ordinary step size
+    /// (light tails / bounded support), so that a transition that runs for a minute is a hang and not a long excursion
+    pub fn bounded_periods(&self) -> bool {
+        matches!(self, AnyTarget::Gauss2 { .. } | AnyTarget::GaussD { .. } | AnyTarget::GaussOff { .. } | AnyTarget::LogBox | AnyTarget::SqrtGamma { .. } | AnyTarget::Cliff { .. } | AnyTarget::HalfLine { .. })
+    }
     pub fn dim_fixed(&self) -> Option<usize> {
         match self {
             AnyTarget::Gauss2 { .. } | AnyTarget::Rosen2 { .. } => Some(2),
